@@ -5,7 +5,7 @@
    Arithmetic is 64-bit two's complement (what the hardware does for the C's signed +,-,*; INT64_MIN / -1 is a
    distinguished Signal outcome kept in the type for the proofs; the VM itself now wraps).  Definitions only. *)
 From Coq Require Import ZArith NArith List Bool.
-From NV Require Import Base.Bytes Isa.Codec gen.IsaTable Lang.Ast Back.VmCompile.
+From NV Require Import Base.Bytes Isa.Codec gen.IsaTable Lang.Ast Back.VmCompile Back.IntFormat.
 Import ListNotations.
 
 Inductive mval := MInt (z : Z) | MBool (b : bool) | MVoid | MStr (s : list N) | MArr (l : list mval).
@@ -60,6 +60,20 @@ Definition val_compare (a b : mval) : Z :=
   | MBool x, MBool y => (Z.b2z x - Z.b2z y)%Z
   | _, _ => if Z.eqb (tag_of a) (tag_of b) then 0 else (tag_of a - tag_of b)%Z
   end.
+
+(* ---- strings (src/nanovm/heap.c vm_string_ functions, vm.c OP_STR_ opcodes).  A VmString is length-prefixed; its bytes never contain NUL here
+   (literals are cut at the first NUL by the compiler, no operation below creates one), so strlen, used by STR_CHAR_AT and
+   strstr, sees the whole string. *)
+Definition u32 (z : Z) : Z := z mod 4294967296.                 (* (uint32_t) of an int64 *)
+Definition int_of (v : mval) : Z := match v with MInt z => z | _ => 0%Z end.      (* v.tag == TAG_INT ? v.as.i64 : 0 *)
+(* vm_string_substr(s, start, len) with both operands narrowed to 32 bits first *)
+Definition vm_substr (s : list N) (start len : Z) : list N :=
+  let n := Z.of_nat (length s) in
+  let st := u32 start in let ln := u32 len in
+  if (n <=? st)%Z then [] else firstn (Z.to_nat (Z.min ln (n - st))) (skipn (Z.to_nat st) s).
+(* STR_CHAR_AT: the byte, or -1 outside 0 <= idx < length *)
+Definition vm_char_at (s : list N) (idx : Z) : Z :=
+  if ((0 <=? idx) && (idx <? Z.of_nat (length s)))%Z then Z.of_N (nth (Z.to_nat idx) s 0%N mod 256) else (-1)%Z.
 
 Definition set_nth {A} (n : nat) (v : A) (l : list A) : list A := firstn n l ++ v :: skipn (S n) l.
 
@@ -157,6 +171,9 @@ Definition step (s : mstate) : mres :=
         match st with
         | MInt y :: MInt x :: r =>
             match arith o x y with Some z => MNext (with_stack s1 (MInt z :: r)) | None => MSignal (ms_out s) end
+        | MStr y :: MStr x :: r =>
+            (* ADD on two strings concatenates (vm_string_concat); the other arithmetic opcodes refuse strings *)
+            if N.eqb o OP_ADD then MNext (with_stack s1 (MStr (x ++ y) :: r)) else MErr EType (ms_out s)
         | _ :: _ :: _ => MErr EType (ms_out s)
         | _ => MErr EStack (ms_out s) end
       else if N.eqb o OP_NEG then
@@ -251,6 +268,47 @@ Definition step (s : mstate) : mres :=
             if Nat.ltb (length st) c then MErr EStack (ms_out s)
             else MNext (with_stack s1 (MArr (rev (firstn c st)) :: skipn c st))
         | _ => MErr EDecode (ms_out s) end
+      else if N.eqb o OP_STR_LEN then
+        match st with
+        | MStr x :: r => MNext (with_stack s1 (MInt (Z.of_nat (length x)) :: r))
+        | _ :: _ => MErr EType (ms_out s)
+        | [] => MErr EStack (ms_out s) end
+      else if N.eqb o OP_STR_CONCAT then
+        match st with
+        | MStr y :: MStr x :: r => MNext (with_stack s1 (MStr (x ++ y) :: r))
+        | _ :: _ :: _ => MErr EType (ms_out s)
+        | _ => MErr EStack (ms_out s) end
+      else if N.eqb o OP_STR_CONTAINS then
+        match st with
+        | MStr needle :: MStr hay :: r => MNext (with_stack s1 (MBool (containsb hay needle) :: r))
+        | _ :: _ :: _ => MErr EType (ms_out s)
+        | _ => MErr EStack (ms_out s) end
+      else if N.eqb o OP_STR_EQ then
+        match st with
+        | MStr y :: MStr x :: r => MNext (with_stack s1 (MBool (list_N_eqb x y) :: r))
+        | _ :: _ :: _ => MErr EType (ms_out s)
+        | _ => MErr EStack (ms_out s) end
+      else if N.eqb o OP_STR_CHAR_AT then
+        match st with
+        | idx :: MStr x :: r => MNext (with_stack s1 (MInt (vm_char_at x (int_of idx)) :: r))
+        | _ :: _ :: _ => MErr EType (ms_out s)
+        | _ => MErr EStack (ms_out s) end
+      else if N.eqb o OP_STR_SUBSTR then
+        match st with
+        | len :: start :: MStr x :: r => MNext (with_stack s1 (MStr (vm_substr x (int_of start) (int_of len)) :: r))
+        | _ :: _ :: _ :: _ => MErr EType (ms_out s)
+        | _ => MErr EStack (ms_out s) end
+      else if N.eqb o OP_CAST_STRING then
+        (* int_to_string / to_string: a string stays, an int is formatted by vm_string_from_int (Back/IntFormat: None = the
+           text does not fit the buffer, not modelled), a bool becomes true / false, anything else the empty string *)
+        match st with
+        | MStr x :: r => MNext (with_stack s1 (MStr x :: r))
+        | MInt z :: r => match vm_int_to_string z with
+                         | Some t => MNext (with_stack s1 (MStr t :: r))
+                         | None => MErr EUnsupported (ms_out s) end
+        | MBool b :: r => MNext (with_stack s1 (MStr (print_bool b) :: r))
+        | _ :: r => MNext (with_stack s1 (MStr [] :: r))
+        | [] => MErr EStack (ms_out s) end
       else MErr EUnsupported (ms_out s)
     end
   end.
